@@ -305,6 +305,11 @@ func (t *template) Load(filename string) Template {
 // Get retrieves a variable value as a string.
 func (t *template) Get(key string) string {
 	val, ok := t.stack.Lookup(key)
+	// The loaded file's front-matter is authoritative when rendering; report
+	// the same value here even if Assign wrote the key afterwards.
+	if fm, isFM := t.frontMatter[key]; isFM {
+		val, ok = fm, true
+	}
 	if !ok || val == nil {
 		return ""
 	}
